@@ -458,7 +458,14 @@ func TestVerifC14Text(t *testing.T) {
 				trampDist = sy.dist
 			}
 			strayDist := 0
+			mphHi := 0
 			if mphRegion != 0 {
+				reg0 := c14raw(mphRegion, 3*4096)
+				for k := range reg0 {
+					if reg0[k] != mphSnap[k] && k-4096+1 > mphHi {
+						mphHi = k - 4096 + 1
+					}
+				}
 				trampDist = mphN
 				if v := kv["pad"]; v != "" {
 					trampDist += int(vh.U64(v))
@@ -524,8 +531,8 @@ func TestVerifC14Text(t *testing.T) {
 				syscall.Syscall(syscall.SYS_MPROTECT, p, ln, syscall.PROT_READ|syscall.PROT_EXEC)
 			}
 			_ = plo
-			out.Put(op.Idx, "apply=ok entry=%s unpatch=ok restored=%v lens=%d/%d | apply_ext=%s unpatch_ext=%s scribble=%v scr_hi=%d to_ok=%v n_patch=%d tramp_written=%d..%d n_apply=%d stray=%d stray_after=%d image_applied=%v image_after=%v pbase=%#x entry=%#x tramp=%#x trampsize=%d trampdist=%d stray_dist=%d mfn_stray=%d",
-				c14maskJump(after), restored, obLen, jbLen, applyExt, unpatchExt, scr, scrHi, toOK, nPatch, int64(plo)-int64(trampAddr), int64(phi)-int64(trampAddr), nApply, stray, strayAfter, imgApplied, image() == image0, pbase, entry, trampAddr, trampSize, trampDist, strayDist, mfnStrayApplied+mfnStray())
+			out.Put(op.Idx, "apply=ok entry=%s unpatch=ok restored=%v lens=%d/%d | apply_ext=%s unpatch_ext=%s scribble=%v scr_hi=%d to_ok=%v n_patch=%d tramp_written=%d..%d n_apply=%d stray=%d stray_after=%d image_applied=%v image_after=%v pbase=%#x entry=%#x tramp=%#x trampsize=%d trampdist=%d stray_dist=%d mfn_stray=%d mph_hi=%d",
+				c14maskJump(after), restored, obLen, jbLen, applyExt, unpatchExt, scr, scrHi, toOK, nPatch, int64(plo)-int64(trampAddr), int64(phi)-int64(trampAddr), nApply, stray, strayAfter, imgApplied, image() == image0, pbase, entry, trampAddr, trampSize, trampDist, strayDist, mfnStrayApplied+mfnStray(), mphHi)
 			mfnDone()
 		}
 	}
@@ -568,12 +575,29 @@ func c14hist(op vh.Op, out *vh.Out, byName map[string]c14sym, textLo, textHi uin
 		name := f[len(f)-1]
 		src, ok := byName[name]
 		fn, ok2 := zzC14Funcs[strings.TrimPrefix(name, c14pkg)]
-		if !ok || !ok2 {
+		if (!ok || !ok2) && f[0] != "S" {
 			out.Put(op.Idx, "no-such-target")
 			return
 		}
 		t := &c14target{fn: fn}
-		if f[0] == "M" {
+		if f[0] == "S" {
+			// S:<E>:<P>:…  a function of E code bytes + P INT3 bytes + its successor at the start of the middle page of a
+			// private executable mapping (true slot E+P)
+			e, pd := int(vh.U64(f[1])), int(vh.U64(f[2]))
+			r, _, er := syscall.Syscall6(syscall.SYS_MMAP, 0, 3*4096, syscall.PROT_READ|syscall.PROT_WRITE, syscall.MAP_PRIVATE|syscall.MAP_ANON, ^uintptr(0), 0)
+			if er != 0 {
+				panic("c14 probe: mmap: " + er.Error())
+			}
+			reg := c14raw(r, 3*4096)
+			for k := range reg {
+				reg[k] = 0xcc
+			}
+			copy(reg[4096:], c14u.PaddedFunc(e, pd))
+			syscall.Syscall(syscall.SYS_MPROTECT, r, 3*4096, syscall.PROT_READ|syscall.PROT_EXEC)
+			t.isM, t.region, t.entry = true, r, r+4096
+			t.snap = append([]byte(nil), reg...)
+			mbases = append(mbases, fmt.Sprintf("%d:%#x", i, r))
+		} else if f[0] == "M" {
 			off := uintptr(vh.U64(f[1]))
 			r, _, e := syscall.Syscall6(syscall.SYS_MMAP, 0, 3*4096, syscall.PROT_READ|syscall.PROT_WRITE, syscall.MAP_PRIVATE|syscall.MAP_ANON, ^uintptr(0), 0)
 			if e != 0 {
@@ -605,7 +629,7 @@ func c14hist(op vh.Op, out *vh.Out, byName map[string]c14sym, textLo, textHi uin
 				dup = dup || o.entry == t.entry
 			}
 			bytecode.GetFuncSize(64, t.entry, false) // goom caches the scanned size: take it from the pristine bytes
-			if hi > 13 && !dup {
+			if hi > 13 && !dup && f[0] != "C" { // C: a caller whose code goom may decode later — left as it is
 				t.scr = make([]byte, hi-13)
 				for k := range t.scr {
 					t.scr[k] = pristine[t.entry-textLo+13+uintptr(k)] ^ 0xa5
@@ -756,7 +780,11 @@ func c14hist(op vh.Op, out *vh.Out, byName map[string]c14sym, textLo, textHi uin
 			case "unpatchfn":
 				lock()
 				defer unlock()
-				if !unpatchValue(ts[idx].entry) {
+				if ts[idx].isM {
+					if !unpatchValue(ts[idx].entry) {
+						res = "noop"
+					}
+				} else if !Unpatch(ts[idx].fn) { // the public entry point
 					res = "noop"
 				}
 			case "unpatchall":
